@@ -5,7 +5,11 @@ import json, glob, os
 class Facts:
     def __init__(self, path):
         with open(path) as f:
-            d = json.load(f)
+            raw = f.read()
+        d = json.loads(raw)
+        from . import paths as _paths
+        raw, d, self.path_renames = _paths.canonicalise(raw, d)
+        del raw
         self.path = path
         self.crate = d["crate"]
         self.crate_types = d["crate_types"]
@@ -22,6 +26,7 @@ class Facts:
             if p:
                 self.children.setdefault(p, []).append(f["id"])
         self.field_renames = canonicalise_fields(self)
+        self.variant_renames = canonicalise_variants(self)
         self.new_helpers = find_new_helpers(self)
         self._attr_cache = {}
 
@@ -197,6 +202,59 @@ def canonicalise_fields(fx):
             f["name"] = m.get(f["name"], f["name"])
     for f in fx.fns.values():
         walk(f.get("blocks") or [])
+    return renames
+
+
+def canonicalise_variants(fx):
+    """The variants of a crate-private enum may be renamed without any behavioural change; the rules name variants
+    (DeltaStatus::ApplyAfterReset, ...).  An enum of the reference layout whose variants keep their number, order and field
+    names is mapped back position by position.  Returns {adt: {current: canonical}}."""
+    from . import paths
+    ref = (paths._ref()[0].get("adts") or {}) if fx.crate == "chitchat" else {}
+    renames = {}
+    for path, a in fx.adts.items():
+        want = ref.get(path)
+        if not want or a.get("kind") != "Enum" or want[0] != "Enum" or len(want[1]) != len(a["variants"]):
+            continue
+        cur_names = [v["name"] for v in a["variants"]]
+        want_names = [w[0] for w in want[1]]
+        if cur_names == want_names or set(cur_names) == set(want_names):
+            continue
+        m = {}
+        ok = True
+        for v, w in zip(a["variants"], want[1]):
+            if [f["name"] for f in v["fields"]] != w[1]:
+                ok = False
+            if v["name"] != w[0]:
+                if v["name"] in want_names or w[0] in cur_names:
+                    ok = False
+                m[v["name"]] = w[0]
+        if ok and m:
+            renames[path] = m
+    if not renames:
+        return {}
+    by_names = {frozenset(v["name"] for v in fx.adts[p]["variants"]): p for p in renames}
+
+    def walk(o):
+        if isinstance(o, dict):
+            if o.get("adt") in renames and o.get("variant") in renames[o["adt"]]:
+                o["variant"] = renames[o["adt"]][o["variant"]]
+            vs = o.get("variants")
+            if isinstance(vs, list) and vs and all(isinstance(x, list) and len(x) == 2 for x in vs):
+                p = by_names.get(frozenset(x[0] for x in vs))
+                if p:
+                    for x in vs:
+                        x[0] = renames[p].get(x[0], x[0])
+            for v in o.values():
+                walk(v)
+        elif isinstance(o, list):
+            for v in o:
+                walk(v)
+    for f in fx.fns.values():
+        walk(f.get("blocks") or [])
+    for p, m in renames.items():
+        for v in fx.adts[p]["variants"]:
+            v["name"] = m.get(v["name"], v["name"])
     return renames
 
 
